@@ -137,6 +137,84 @@ PROPS = {
                  "harness-side quick-xml parse of the wire bytes into the canonical request"],
         assumptions=["a session exists (common base version); otherwise nothing can be sent at all"],
     ),
+    "C11": dict(
+        thm=["Bgpfu.Thm.C11"],
+        ops=[("evalseq", ["c11"])],
+        level_text="Theorems (every database — nested, cyclic, self-referencing sets, v4-only / v6-only / route-less ASes, "
+                   "duplicates — every expression and every evaluator state between evaluations): the fake IRRd's recursive "
+                   "expansion is the reflexive-transitive membership closure (termination proved); the as-set resolver returns "
+                   "the routes of that closure; whenever an evaluation succeeds its result equals, on every prefix of a length the "
+                   "family has, an independently written RFC 2622/4012 denotation (AND/OR/NOT, range operators on literals and on "
+                   "sets, as-sets, route-sets, aut-nums, filter-set indirection); the IPv4/IPv6 partition handed to the router is "
+                   "lossless. The model is tied to the real RpslEvaluator, the bgpfu binary and Policies<Candidate>::evaluate by "
+                   "runs against a loopback fake IRRd whose every response body is computed by the Lean model.",
+        level_note="Theorems are about the Lean models (Model/Irr.lean, Model/Rpsl.lean) and the Lean specification "
+                   "(Model/RpslSpec.lean). The set algebra of generic-ip (any/!/&/|/ranges/as_partitions) and rpsl's parser are "
+                   "trusted; outputs are compared with the model by membership on a probe set (every prefix mentioned, parent, "
+                   "children, sibling, descendants at every operator bound ±1), not by set equality. Side conditions of "
+                   "eval_eq_denote: the upper bound of a ^n-m operator is within the address family (for an operator applied to a "
+                   "set: ≤ 32); for the code as it is (Cfg.pinned) no route-set member carries a range operator (D16: such members "
+                   "are silently dropped — routeset_range_member_dropped_cex; spec class routeset-range-member-dropped). "
+                   "Two further spec classes concern the dependencies in front of / below the evaluator and are not repairable in "
+                   "/repo: operator-precedence (the rpsl grammar reads `A AND B OR C` as `A AND (B OR C)` and `NOT A AND B` as "
+                   "`NOT (A AND B)`, RFC 2622 §5.4 prescribes NOT > AND > OR; operator_precedence_cex; eval_eq_denote is about the "
+                   "tree the parser built) and not-exponential-in-prefix-length (generic-ip 0.1.1 complements a set in time "
+                   "exponential in the prefix length: ~0.2 s for a /16, ~40 s for a /24, no result for a /32 — NOT over real IRR "
+                   "data does not terminate in practice; therefore NOT is only exercised over prefixes ≤ /12). The agent path is `agent::verif::evaluate` (H3); route-filters installed in the fake "
+                   "Junos are covered by the agent-run op of C01.",
+        rule="generated databases (≤ 8 sets, ≤ 10 ASes, cyclic / self-referencing membership, unknown member sets, v4-only / "
+             "v6-only / route-less ASes, duplicate prefixes, route-sets with prefix, AS and set members, with and without range "
+             "operators, filter-sets with one or several objects) × generated expressions (depth ≤ 3); three runners in turn: "
+             "RpslEvaluator in-process, bgpfu binary (stdout), H3 evaluate; a case is distinct by (database, expressions, runner)",
+        trusted=["generic-ip PrefixSet algebra and range aggregation; rpsl parser (expression text → AST; filter-set object text)",
+                 "fake IRRd wire fidelity to IRRd 4 (response framing, D for empty results optional, AS members of route-sets "
+                 "resolved server-side)",
+                 "probe-set comparison instead of set equality"],
+        assumptions=["^n-m upper bounds within the address family (OpsOk / DbOpsOk)",
+                     "Cfg.pinned: route-set members are plain prefixes (RsPlain)",
+                     "filter-set indirection is acyclic (cyclic filter-sets recurse without bound in the code)"],
+    ),
+    "C15": dict(
+        thm=["Bgpfu.Thm.C15"],
+        ops=[("evalseq", ["c15"])],
+        level_text="Theorems (evaluator part; every database, every list of candidates in every order, every per-candidate "
+                   "fault set): a completed run gives each candidate exactly its solo result (isolation, via C17's connection "
+                   "invariant); candidates that fail with an error never abort the run; with the two proposed repairs "
+                   "(Cfg.fixed) no expression at all — PeerAS, AS-path regexps, attribute matches included — aborts the run, "
+                   "and the evaluator stays usable. For the code as it is (Cfg.pinned) the counter-examples "
+                   "peeras_panics_cex / aspath_attr_panic_cex show the abort. Correspondence: mixed policy sets through "
+                   "Policies<Candidate>::evaluate (H3) under catch_unwind, and sequences on one RpslEvaluator across panics.",
+        level_note="Evaluator part only: the model's `abort` is the panic of the evaluation task; that handle_task then fails the "
+                   "whole run before any load/commit (task.rs:57-82,183-189) is the agent-run model's part — the ops list is to be "
+                   "extended with the end-to-end agent run (fake Junos + fake IRRd; which policies were updated, exit status). "
+                   "Evaluation order inside Policies::evaluate is the HashMap's (random per run); the theorem covers all orders, the "
+                   "harness observes whichever orders occur. Spec classes: panic-peeras, panic-aspath-regex, panic-attr-match (D11).",
+        rule="policy sets of 2–4 members mixing evaluable expressions, unknown as-/route-/filter-sets, PeerAS, `<^AS…>`, "
+             "`community(…)`, and IRRd D/E/F answers selected by query; H3 evaluate under catch_unwind, and the same on one "
+             "RpslEvaluator in sequence (each item also on a fresh evaluator)",
+        trusted=["panic classification by panic message", "HashMap iteration order is not controlled by the harness"],
+        assumptions=["no cyclic filter-sets (diverge)"],
+    ),
+    "C17": dict(
+        thm=["Bgpfu.Thm.C17"],
+        ops=[("evalseq", ["c17"])],
+        level_text="Theorems (every database, expression, fault set, history; both configurations): after every evaluate — "
+                   "successful, failed at any query, panicked — the evaluator holds its connection with no outstanding response; "
+                   "evaluating after any history equals evaluating on a fresh evaluator (outcome, queries, consumed responses); "
+                   "every consumed response is attributed to the query it answers and the consumed pairs are exactly the sent "
+                   "pairs in order. Correspondence: histories of 2–8 expressions on one real RpslEvaluator with D/E/F answers "
+                   "injected at chosen query indices / for chosen queries, each expression also on a fresh evaluator, the fake's "
+                   "(query, answer) log compared with the model's.",
+        level_note="The model abstracts irrc's Pipeline to push / pop / drain-on-drop over whole responses (item-level partial "
+                   "consumption inside one response, as in the filter-set resolver's find_map, is irrc's Response::drop and is "
+                   "exercised only by the correspondence run: filter-sets with several objects). TCP-level faults (connection "
+                   "closed mid-response) are out of scope: irrc then busy-loops on 0-byte reads (observed while building the fake; "
+                   "not a property of this repository).",
+        rule="generated databases as for C11 (no range-operator members) × histories of 2–8 expressions (repeats of earlier "
+             "expressions included, unknown names included) × per-expression fault sets (index- and query-selected D/E/F)",
+        trusted=["the fake applies faults by the index of the query within the current evaluation; the harness resets the index "
+                 "before each evaluate (sound because of conn_invariant: nothing is in flight between evaluations)"],
+    ),
     "C07": dict(
         thm=["Bgpfu.Thm.C07"],
         ops=[("frame", ["only-close"])],
